@@ -391,6 +391,13 @@ S.flip = lambda a, *dims: flip(a, dims[0] if len(dims) == 1 and isinstance(dims[
 S.norm = lambda a, p=2, dim=None, keepdim=False: norm(a, p, dim, keepdim)
 S.prod = lambda a, dim=None, keepdim=False: prod(a, dim, keepdim)
 S.mean = lambda a, dim=None, keepdim=False: mean(a, dim, keepdim)
+def _resize_as_(a, other):
+    if len(a.shape) == len(other.shape) and builtins.all(O.dim_eq(p, q) for p, q in zip(a.shape, other.shape)):
+        return a  # same shape: no-op
+    raise Unsupported("resize_as_ to a different shape")
+
+
+S.resize_as_ = _resize_as_
 S.max = lambda a, *x, **k: max_(a, *x, **k)
 S.min = lambda a, *x, **k: min_(a, *x, **k)
 
@@ -651,7 +658,20 @@ _PUBLIC = {}
 
 def public(name, impl):
     def f(*args, **kwargs):
-        return _dispatch(name, impl, args, kwargs)
+        out = kwargs.pop("out", None)
+        r = _dispatch(name, impl, args, kwargs)
+        if out is None:
+            return r
+        # torch.f(..., out=t): the result is WRITTEN INTO t (an in-place write seen by every alias of t) and t is returned.
+        # (the result is a snapshot of the operands taken before the write, so out may alias an operand)
+        if not isinstance(out, SymTensor) or not isinstance(r, SymTensor):
+            raise Unsupported(f"torch.{name}(out=...) with a non-tensor result")
+        if len(out.shape) != len(r.shape) or not builtins.all(O.dim_eq(p, q) for p, q in zip(out.shape, r.shape)):
+            raise Unsupported(f"torch.{name}(out=...) with an out tensor of another shape (resizing is not modelled)")
+        if out.dtype is not r.dtype:
+            raise Unsupported(f"torch.{name}(out=...) with an out tensor of another dtype")
+        O.copy_(out, r)
+        return out
     f.__name__ = name
     f.__qualname__ = name
     f._impl = impl
